@@ -144,3 +144,17 @@ pub fn grid(scripts: &[(Vec<(usize, crate::world::Step)>, usize)], caps: &[usize
     }
     out
 }
+
+/// Variants of the large-channel configurations in which only the lane -> runtime channels are
+/// tiny (8 bytes): the agent's writes are held back, so it consumes several requests while a lane
+/// is still dirty (sync served with a pending change, events coalesced inside the lane).
+pub fn with_small_lane_buf(cfgs: &[Cfg]) -> Vec<Cfg> {
+    cfgs.iter()
+        .filter(|c| c.cap == 4096 && c.credit == 0)
+        .map(|c| {
+            let mut c = c.clone();
+            c.lane_buf = 8;
+            c
+        })
+        .collect()
+}
